@@ -32,7 +32,7 @@ func (c03) NumCases(tier string, seed int64) int {
 	if tier == "thorough" {
 		return 8000
 	}
-	return 800
+	return 1600
 }
 
 type c03entry struct {
@@ -45,10 +45,30 @@ func (p c03) Run(c *core.Ctx, idx int) {
 	o := dp.DefaultGen()
 	o.MaxDepth = 2 + r.Intn(3)
 	o.Presence = idx%4 == 0
+	// target store: the reference store (3 of 7) or one of the library's reflection nodes over plain Go values
+	storeKind := 0
+	if k := (idx / 5) % 7; k >= 3 {
+		storeKind = k - 2
+	}
+	var gm dp.GoMode
+	cmp := dp.CmpOpts{}
+	if storeKind > 0 {
+		gm = dp.GoModes[storeKind-1]
+		o.Types, o.KeyTypes = dp.GoTypes(gm), dp.GoKeyTypes(gm)
+		o.CompoundKeys = gm.Shape == "struct"
+		o.Defaults = gm.Shape == "map"
+		cmp = dp.CmpOpts{IgnoreListOrder: true}
+	}
 	s := dp.GenSchema(r, o)
 	if err := s.Compile(); err != nil {
 		c.R.Inconclusive = "generated schema does not compile: " + head(err.Error(), 300)
 		return
+	}
+	if storeKind > 0 {
+		if why := dp.GoSupports(s, gm); why != "" {
+			c.Count("go_store_schema_outside_domain")
+			return
+		}
 	}
 	do := dp.DefaultData()
 	do.MaxEntries = 1 + r.Intn(3)
@@ -60,7 +80,22 @@ func (p c03) Run(c *core.Ctx, idx int) {
 		t = dp.NewDNode(nil)
 	}
 	model := t.Clone()
-	target := dp.NewStore(s, t)
+	var target c18store
+	var ref *dp.Store
+	storeName := "reference-store"
+	norm := func(d *dp.DNode) *dp.DNode { return d }
+	if storeKind == 0 {
+		ref = dp.NewStore(s, t)
+		target = &c18ref{ref}
+	} else {
+		target = &c18go{dp.NewGoStore(r, s, gm, t)}
+		storeName = gm.String()
+		if gm.Shape == "struct" {
+			norm = dp.ZeroNormalize
+		}
+		model = norm(model)
+	}
+	c.Count("store_" + storeName)
 	nops := 1 + r.Intn(6)
 	var history []string
 	for op := 0; op < nops; op++ {
@@ -81,8 +116,29 @@ func (p c03) Run(c *core.Ctx, idx int) {
 		if r.Intn(3) != 0 {
 			ep = entries[r.Intn(len(entries))]
 		}
-		from := r.Intn(2) == 0
+		if storeKind > 0 && r.Intn(3) == 0 {
+			// reflection stores: lists are where their representations differ
+			var lists []c03entry
+			for _, e := range entries {
+				if e.kind == "list" {
+					lists = append(lists, e)
+				}
+			}
+			if len(lists) > 0 {
+				ep = lists[r.Intn(len(lists))]
+			}
+		}
+		from := r.Intn(2) == 0 || ref == nil
 		useJSON := r.Intn(3) == 0
+		// a reflection node as the source (root entry point only: that is where the harness can hand one out)
+		var goSrc *dp.GoMode
+		if ep.kind == "root" && r.Intn(3) == 0 {
+			// map shapes only: a struct field cannot say "unset", a struct source states the zero value of every leaf
+			m := dp.GoModes[r.Intn(2)]
+			if dp.GoSupports(s, m) == "" {
+				goSrc = &m
+			}
+		}
 
 		// build the source for that entry point and compute the model outcome on a scratch copy
 		var srcTree *dp.DNode // holder tree for the source store
@@ -120,6 +176,29 @@ func (p c03) Run(c *core.Ctx, idx int) {
 			if sl == nil {
 				sl = &dp.DList{S: ml.S}
 			}
+			if len(ml.Entries) >= 2 && (r.Intn(3) == 0 || storeKind > 0 && r.Intn(2) == 0) {
+				// existing and new entries alternate in one edit: lookups by key and appends interleave in the target
+				fresh := dp.NewDNode(nil)
+				dp.FillList(r, s, fresh, ml.S, do)
+				var news []*dp.DNode
+				if fl := fresh.Lists[ml.S.Name]; fl != nil {
+					for _, e := range fl.Entries {
+						if dup, _ := ml.Find(e.Key()); dup == nil {
+							news = append(news, e)
+						}
+					}
+				}
+				sl = &dp.DList{S: ml.S}
+				for i, e := range ml.Entries {
+					sl.Entries = append(sl.Entries, dp.Derive(r, s, e, ml.S.Children, do))
+					if i < len(news) {
+						if dup, _ := sl.Find(news[i].Key()); dup == nil {
+							sl.Entries = append(sl.Entries, news[i])
+						}
+					}
+				}
+				c.Count("interleaved_existing_and_new_entries")
+			}
 			holder.Lists[ml.S.Name] = sl
 			srcTree = holder
 			srcNode = srcStore.ListAt(holder, ml.S.Name)
@@ -127,7 +206,10 @@ func (p c03) Run(c *core.Ctx, idx int) {
 			outcome = dp.ApplyList(s, st, sl, ml)
 		}
 		impl := "refstore"
-		if useJSON {
+		if goSrc != nil {
+			impl = "go-" + goSrc.String()
+			srcNode = dp.NewGoStore(r, s, *goSrc, srcTree).Node()
+		} else if useJSON {
 			impl = "json"
 			if len(srcTree.Lists) > 0 || true {
 				n, err := nodeutil.ReadJSON(jsonDoc)
@@ -145,7 +227,7 @@ func (p c03) Run(c *core.Ctx, idx int) {
 		desc := fmt.Sprintf("%s%s at %s %q source=%s", st, dir, ep.kind, ep.path.String(), impl)
 		history = append(history, desc+" S="+head(oneLineTree(s, srcTree), 300))
 		c.Eval()
-		c.Shape("%s/%s/%s/%s/%s/%s", st, ep.kind, dir, impl, outcome, overlapClass(srcTree, ep, model))
+		c.Shape("%s/%s/%s/%s/%s/%s/%s", st, ep.kind, dir, impl, outcome, overlapClass(srcTree, ep, model), storeName)
 		c.Count("op_" + st.String())
 		c.Count("entry_" + ep.kind)
 		c.Count("model_" + outcome.String())
@@ -173,13 +255,13 @@ func (p c03) Run(c *core.Ctx, idx int) {
 				var tnode node.Node
 				switch ep.kind {
 				case "root":
-					tnode = target.Node()
+					tnode = ref.Node()
 				case "list":
-					_, _, parent := target.Root.Resolve(ep.path)
-					tnode = target.ListAt(parent, ep.path[len(ep.path)-1].Name)
+					_, _, parent := ref.Root.Resolve(ep.path)
+					tnode = ref.ListAt(parent, ep.path[len(ep.path)-1].Name)
 				default:
-					tn, _, _ := target.Root.Resolve(ep.path)
-					tnode = target.NodeAt(tn)
+					tn, _, _ := ref.Root.Resolve(ep.path)
+					tnode = ref.NodeAt(tn)
 				}
 				// sel is only used for its schema position; Split() binds srcNode to it
 				ssel := sel.Split(srcNode)
@@ -194,7 +276,7 @@ func (p c03) Run(c *core.Ctx, idx int) {
 			}
 		})
 		wit := func() string {
-			return fmt.Sprintf("history:\n  %s\nschema:\n%starget before this op:\n%s", joinLines(history), s.Yang(), model.Dump(s))
+			return fmt.Sprintf("store: %s %s\nhistory:\n  %s\nschema:\n%starget before this op:\n%s", storeName, target.Describe(), joinLines(history), s.Yang(), model.Dump(s))
 		}
 		if panicked {
 			return
@@ -206,22 +288,26 @@ func (p c03) Run(c *core.Ctx, idx int) {
 			if got >= 0 {
 				gs = got.String()
 			}
-			c.Violate("outcome/"+sigBase+"/model-"+outcome.String()+"-lib-"+gs, "%s: model says %s, library returned %v\n%s", desc, outcome, err, wit())
+			c.Violate("outcome/"+sigBase+"/model-"+outcome.String()+"-lib-"+gs+storeSig(storeName), "%s: model says %s, library returned %v\n%s", desc, outcome, err, wit())
 			return
 		}
-		for _, pr := range target.Problems {
+		for _, pr := range target.Problems() {
 			c.Violate("protocol/"+sigBase, "%s: %s\n%s", desc, pr, wit())
 		}
-		target.Problems = nil
+		snap, snapErr := target.Snap()
+		if snapErr != nil {
+			c.Violate("store-corrupt/"+sigBase+storeSig(storeName), "%s: the Go values no longer denote a tree of the schema: %v\n%s", desc, snapErr, wit())
+			return
+		}
 		if outcome == dp.OK {
-			model = scratch
-			if d := dp.Diff(s, model, target.Root, dp.CmpOpts{}); d != "" {
-				c.Violate("result/"+sigBase+"/"+diffClass(d), "%s: target differs from the keyed deep merge:\n%s\n%s\nactual target:\n%s", desc, d, wit(), target.Root.Dump(s))
+			model = norm(scratch)
+			if d := dp.Diff(s, model, snap, cmp); d != "" {
+				c.Violate("result/"+sigBase+"/"+diffClass(d)+storeSig(storeName), "%s: target differs from the keyed deep merge:\n%s\n%s\nactual target:\n%s", desc, d, wit(), snap.Dump(s))
 				return
 			}
 		} else {
 			// failed as specified; the statement defines no rollback: continue from the store's actual content
-			model = target.Root.Clone()
+			model = snap.Clone()
 		}
 	}
 	c.SetSample(map[string]interface{}{"yang": head(s.Yang(), 1500), "history": history})
